@@ -3,7 +3,11 @@
      I <opt> <ls> <kind> <n> | A (n*n) | b (n) | x0 (n) | params | lower (n) | upper (n)
      S        one step
      W        save, restore (ls_restore (ls_save s)), continue with the restored state
-   Numbers in: integers or p/q (decimal).  Numbers out: [-]hex/hex (exact rationals). *)
+     L <ls> <n> <fk> <seed> <slope> <thr> | point | d | t0 | value | g | wolfecubic steps | dlinmin x0 | dlinmin us
+              one call of the model's [linesearch] on the hooked objective of the harness (same hash, evaluated on the
+              exact rationals, which are doubles); the three last groups are the ORACLE: the step lengths at which the
+              real code evaluated the objective (tools/c10.py reads them from the harness' log)
+   Numbers in: integers, p/q (decimal) or m@e (= m * 2^e).  Numbers out: [-]hex/hex (exact rationals). *)
 open C10_model
 
 let rec nat_of_int n = if n <= 0 then O else S (nat_of_int (n - 1))
@@ -23,7 +27,15 @@ let z_to_hex = function Z0 -> "0" | Zpos p -> pos_to_hex p | Zneg p -> "-" ^ pos
 let q_str x = let x = qred x in z_to_hex x.qnum ^ "/" ^ pos_to_hex x.qden
 let v_str v = String.concat "," (List.map q_str v)
 
+let rec shift_pos p e = if e <= 0 then p else shift_pos (XO p) (e - 1)
 let parse_num s =
+  match String.index_opt s '@' with
+  | Some k ->
+    let m = int_of_string (String.sub s 0 k) and e = int_of_string (String.sub s (k + 1) (String.length s - k - 1)) in
+    if m = 0 then { qnum = Z0; qden = XH }
+    else if e >= 0 then { qnum = (if m > 0 then Zpos (shift_pos (pos_of_int m) e) else Zneg (shift_pos (pos_of_int (-m)) e)); qden = XH }
+    else qred { qnum = z_of_int m; qden = shift_pos XH (-e) }
+  | None ->
   match String.index_opt s '/' with
   | Some k -> qred { qnum = z_of_int (int_of_string (String.sub s 0 k));
                      qden = pos_of_int (int_of_string (String.sub s (k + 1) (String.length s - k - 1))) }
@@ -40,8 +52,60 @@ let rec chunk n l = if l = [] then [] else
   let rec take k l = if k = 0 then ([], l) else match l with [] -> ([], []) | x :: r -> let (a, b) = take (k - 1) r in (x :: a, b) in
   let (a, b) = take n l in a :: chunk n b
 
+(* ---- the hooked objective of harness/c10_opt.cpp (struct Hooked), on exact rationals that are doubles ---- *)
+let float_of_pos p = List.fold_left (fun acc b -> acc *. 2.0 +. float_of_int b) 0.0 (List.rev (pos_bits p))
+let float_of_q x =
+  let x = qred x in
+  let n = match x.qnum with Z0 -> 0.0 | Zpos p -> float_of_pos p | Zneg p -> -. float_of_pos p in
+  n /. float_of_pos x.qden
+let mix h v =
+  let v = if v = 0.0 then 0.0 else v in
+  let b = Int64.bits_of_float v in
+  let h = Int64.logxor h (Int64.add (Int64.add (Int64.add b 0x9E3779B97F4A7C15L) (Int64.shift_left h 6)) (Int64.shift_right_logical h 2)) in
+  let h = Int64.mul h 0xff51afd7ed558ccdL in
+  Int64.logxor h (Int64.shift_right_logical h 33)
+let small num den = qred { qnum = z_of_int num; qden = pos_of_int den }
+let hooked fk seed slope thr j dj =
+  let hash x = List.fold_left (fun h q -> mix h (float_of_q q)) (Int64.add (Int64.mul seed 0x9E3779B97F4A7C15L) 0x1234567L) x in
+  let tof x = qred (qdiv (List.nth x j) dj) in
+  let lin x = fk = "M" && qle_bool (qabs (tof x)) thr in
+  let f x =
+    if lin x then qred (qmult (qopp slope) (tof x))
+    else small (Int64.to_int (Int64.logand (Int64.shift_right_logical (hash x) 11) 0xFFL) - 128) 16 in
+  let g x =
+    if lin x then List.mapi (fun i _ -> if i = j then qred (qdiv (qopp slope) dj) else { qnum = Z0; qden = XH }) x
+    else let h = hash x in
+      List.mapi (fun i _ -> small (Int64.to_int (Int64.logand (Int64.shift_right_logical h (20 + 6 * i)) 0x3FL) - 32) 8) x in
+  (f, g)
+
+let line_search toks =
+  match split_groups toks with
+  | [[ls; ns; fk; seed; slope; thr]; pl; dl; [t0]; [value]; gl; wl; xl; ul] ->
+    let point = List.map parse_num pl and d = List.map parse_num dl and g = List.map parse_num gl in
+    let is_zero q = (qred q).qnum = Z0 in
+    let rec first i = function [] -> (0, { qnum = Zpos XH; qden = XH }) | q :: r -> if is_zero q then first (i + 1) r else (i, q) in
+    let (j, dj) = first 0 d in
+    let (f, gr) = hooked fk (Int64.of_string seed) (parse_num slope) (parse_num thr) j dj in
+    let trials = Array.of_list (List.map parse_num wl) in
+    let used = ref 0 and flags = ref [] in
+    let flag s = if not (List.mem s !flags) then flags := s :: !flags in
+    let get i dflt = if i < Array.length trials then (used := max !used (i + 1); trials.(i)) else (flag "model-evaluates-more-than-the-code"; dflt) in
+    let o = { o_wexp = (fun k q -> let i = int_of_nat k in let t = get i q in
+                         if float_of_q q <> float_of_q t then flag (Printf.sprintf "expansion-%d-is-not-10t" i); t);
+              o_wzoom = (fun it -> get (int_of_nat it - 1) { qnum = Zpos XH; qden = XH });
+              o_dx0 = (match xl with [x] -> parse_num x | _ -> { qnum = Z0; qden = XH });
+              o_dus = List.map parse_num ul } in
+    used := min 1 (Array.length trials);
+    (match linesearch f gr (nat_of_int (int_of_string ls)) o point d (parse_num value) g (parse_num t0) with
+     | None -> "UNDEF"
+     | Some ((p', v'), g') ->
+       if ls = "1" && !used <> Array.length trials then flag (Printf.sprintf "model-evaluates-%d-steps-the-code-%d" !used (Array.length trials));
+       Printf.sprintf "pt=%s val=%s der=%s flags=%s" (v_str p') (q_str v') (v_str g') (String.concat "," !flags))
+  | _ -> "?"
+
 type st =
   | NoModel
+  | LsBfgs of vec list ls_state
   | LsSd of unit ls_state
   | LsCg of nat ls_state
   | LsFirst of unit ls_state * int      (* BFGS / LBFGS: init and first step only *)
@@ -54,8 +118,11 @@ let ls_str with_dir cnt s =
     (q_str s.step_len) (v_str s.last_pt) (v_str s.last_der) (q_str s.last_val)
     (match cnt with Some c -> Printf.sprintf " cnt=%d" c | None -> "")
 
+let dummy_oracle = { o_wexp = (fun _ q -> q); o_wzoom = (fun _ -> { qnum = Zpos XH; qden = XH });
+                     o_dx0 = { qnum = Zpos XH; qden = XH }; o_dus = [] }
 let show = function
   | NoModel -> "-"
+  | LsBfgs s -> ls_str true None s ^ " hess=" ^ v_str (List.concat s.extra)
   | LsSd s -> ls_str true None s
   | LsCg s -> ls_str true (Some (int_of_nat s.extra)) s
   | LsFirst (s, k) -> if k <= 1 then ls_str false None s else "-"
@@ -74,6 +141,7 @@ let () =
     let out =
       try
         (match toks with
+         | "L" :: rest -> line_search rest
          | "I" :: rest ->
            (match split_groups rest with
             | [[opt; ls; kind; ns]; al; bl; xl; pl; ll; ul] ->
@@ -86,6 +154,7 @@ let () =
                 (match opt with
                  | "SDLS" when ls = "2" -> state := LsSd (ls_init !f !g feas sd_init_model lsn x0)
                  | "CG" when ls = "2" -> state := LsCg (ls_init !f !g feas cg_init_model lsn x0)
+                 | "BFGS" when ls = "2" -> state := LsBfgs (ls_init_o !f !g feas bfgs_init_model false lsn x0)
                  | ("BFGS" | "LBFGS") when ls = "2" -> state := LsFirst (ls_init !f !g feas sd_init_model lsn x0, 0)
                  | "SD" -> (match pl with
                      | [lr; mom] -> state := Sd (sd_init !f !g (parse_num lr) (parse_num mom) x0)
@@ -97,6 +166,7 @@ let () =
          | ["S"] ->
            (match !state with
             | NoModel -> ()
+            | LsBfgs s -> (match ls_step_o !f !g bfgs_dir dummy_oracle s with Some s' -> state := LsBfgs s' | None -> state := NoModel)
             | LsSd s -> state := LsSd (ls_step !f !g sd_dir s)
             | LsCg s -> state := LsCg (ls_step !f !g cg_dir s)
             | LsFirst (s, k) -> state := LsFirst ((if k = 0 then ls_step !f !g sd_dir s else s), k + 1)
@@ -110,6 +180,8 @@ let () =
             | LsCg s -> (match ls_restore cg_restore_extra s (ls_save cg_save_extra s) with
                 | Some s' -> state := LsCg s'; show !state | None -> "RESTOREFAIL")
             | LsFirst (s, k) -> show !state
+            | LsBfgs s -> (match ls_restore bfgs_restore_extra s (ls_save bfgs_save_extra s) with
+                | Some s' -> state := LsBfgs s'; show !state | None -> "RESTOREFAIL")
             | Sd s -> (match sd_restore_full s (sd_save_full s) with
                 | Some s' -> state := Sd s'; show !state | None -> "RESTOREFAIL"))
          | _ -> "?")
